@@ -337,8 +337,8 @@ def run(R):
         "re-modelled in Lean and validated by the correspondence run only",
         "header values are ASCII; header names are valid tokens (others are rejected by net/http before any handler runs)",
         "URL.Path is not part of the model: the harness checks with the real net/url that it is the unescaped URL.RawPath",
-        "fixes/C09-1.patch is applied (the model skips trusted_proxies entries that are not IP addresses); on the unpatched "
-        "tree the check reports the violation with a replay",
+        "the model skips trusted_proxies entries that are not IP addresses (fixes/C09-1.patch, in /repo as 7f0f8a0); on a "
+        "tree without that fix the check reports the violation with a replay",
         "hop-by-hop header handling and pipeline headers of the proxy are outside this model (C15)",
     ]
 
